@@ -68,7 +68,10 @@ def run(res, tier, seed):
             samples = []
             for p in range(W):
                 samples += [300 + p % 200, 310 + p % 150, 500 + (7 * p) % 300, 600 + p % 250, 620 + p % 250]
-            lines = l1b.default_lines(fmt, n, start, numbers=nums, counts=samples, qual=qual, switch=[i % 2 for i in range(n)])
+            # the track crosses the equator and the prime meridian: negative and positive coordinates (truncation toward zero)
+            lat0, lon0 = [(-0.91, -6.03), (10.0, 20.0), (-33.3, -170.2), (0.4, -0.7)][pi % 4]
+            lines = l1b.default_lines(fmt, n, start, numbers=nums, counts=samples, qual=qual, switch=[i % 2 for i in range(n)],
+                                      latlon=lambda i: l1b.simple_track(n, i, lat0=lat0, lon0=lon0))
             data = l1b.build_file(fmt, sc, start, lines)
             kw = dict(tle_dir=tle_dir, tle_name=tle_name, tle_thresh=40000, adjust_clock_drift=False)
             try:
